@@ -76,6 +76,7 @@ type Conn struct {
 	// 单向连接 输入/输出 （加密/解密）
 	in, out   halfConn
 	workKey   []byte       // TLCP工作密钥，用于在断开连接时对密钥置零
+	workKeyMu sync.Mutex   // 保护 workKey：握手（establishKeys）写入与 Close 置零可能并发
 	rawInput  bytes.Buffer // 原始输入数据，以记录层(record)的头开始
 	input     bytes.Reader // application data waiting to be read, from rawInput.Next
 	hand      bytes.Buffer // handshake data waiting to be read
@@ -1147,9 +1148,11 @@ func (c *Conn) Close() error {
 			alertErr = fmt.Errorf("tlcp: failed to send closeNotify alert (but connection was closed anyway): %w", err)
 		}
 	}
-	// 对工作密钥置零
+	// 对工作密钥置零（Close 可能与尚未完成的握手并发，见 workKeyMu）
+	c.workKeyMu.Lock()
 	setZero(c.workKey)
 	c.workKey = nil
+	c.workKeyMu.Unlock()
 
 	if err := c.conn.Close(); err != nil {
 		return err
